@@ -3682,6 +3682,10 @@ class CacheDataset(Dataset):
                 item = item + len(self)
                 if item < 0:
                     raise IndexError(_item)
+            # A numpy integer (e.g. from iterating a slice of this dataset)
+            # and the equal python integer must address the same entry. The
+            # disk cache would otherwise store them under different keys.
+            item = int(item)
             try:
                 return self._cache[item]
             except KeyError:
